@@ -213,6 +213,8 @@ func runHTTPCase(t *testing.T, c httpCase) (o httpObs) {
 			rpb = rpb.WithDelay(50 * time.Millisecond)
 		case "backoff":
 			rpb = rpb.WithBackoff(10*time.Millisecond, 500*time.Millisecond)
+		case "random":
+			rpb = rpb.WithRandomDelay(time.Millisecond, 5*time.Millisecond)
 		}
 		rp := rpb.Build()
 		var pols []failsafe.Policy[*http.Response]
@@ -341,6 +343,8 @@ func rcfgGallina(k string) string {
 		return "(50000000, 0)"
 	case "backoff":
 		return "(10000000, 500000000)"
+	case "random":
+		return "(1000000, (-5000000))" // a negative second component: random delay in [first, -second]
 	}
 	return "(0, 0)"
 }
@@ -349,7 +353,7 @@ func genHTTPCase(r *Rng) httpCase {
 	c := httpCase{Level: Pick(r, []string{"rt", "client"}), BodyKind: Pick(r, []string{"None", "Seeker", "Stream", "Stream"}),
 		ReqCtx: Pick(r, []string{"Background", "TODO", "Cancellable", "Values", "Deadline", "Custom"}), ExecCtx: Pick(r, []string{"Background", "Background", "Cancellable", "Custom"}),
 		Stack: Pick(r, []string{"retry", "retry", "retry+timeout", "retry+breaker", "fallback+retry"})}
-	c.RetryCfg = Pick(r, []string{"", "", "delay", "backoff", "backoff"})
+	c.RetryCfg = Pick(r, []string{"", "", "delay", "backoff", "backoff", "random"})
 	c.Body = strings.Repeat("payload-", Pick(r, []int{0, 1, 8192, 131072}))
 	if c.BodyKind == "None" {
 		c.Body = ""
@@ -787,7 +791,7 @@ func driveAdapters(t *testing.T, prop string) {
 			true, fmt.Sprint("grpcserver", wt))
 		w.Stat("grpc_server")
 	}
-	w.Close("(1) requests through failsafehttp.NewRoundTripper and NewRequest with a scripted in-memory transport inside a virtual-time bubble: scripts of 1-4 server behaviours (statuses 200/404/429/500/501/502/503, Retry-After seconds, connection / scheme / certificate / redirect / authority / cancellation errors), bodies none / seekable / stream of 0-1MiB, request context Background/TODO/cancellable/with values/with deadline, executor context Background/cancellable, stacks retry / retry+timeout / retry+breaker / fallback+retry, the retry policy being the default builder's or additionally configured with WithDelay(50ms) / WithBackoff(10ms, 500ms); observed per attempt: instant, method, URL, header, body bytes, context value and deadline; returned status or error, readability of the returned body (the transport's body fails once its request context is done), responses opened/closed, goroutines still blocked one hour after the call returned (bubble leak oracle); (1b) attempts that overlap in time (a hedge started while earlier attempts are half-way through the body; a timed-out attempt whose transport drains the rest of the body in the middle of its retry) with stream / buffer / bytes.Reader / seekable bodies of 2 B-70 kB: bytes received by every attempt; (2) the body reader called directly for every body kind, size and already-consumed prefix, three attempts each; (3) the gRPC client and server interceptors with scripted status codes, arguments, reply and metadata. Non-trivial = at least two attempts / every body and gRPC case; distinct by inputs.", nil)
+	w.Close("(1) requests through failsafehttp.NewRoundTripper and NewRequest with a scripted in-memory transport inside a virtual-time bubble: scripts of 1-4 server behaviours (statuses 200/404/429/500/501/502/503, Retry-After seconds, connection / scheme / certificate / redirect / authority / cancellation errors), bodies none / seekable / stream of 0-1MiB, request context Background/TODO/cancellable/with values/with deadline, executor context Background/cancellable, stacks retry / retry+timeout / retry+breaker / fallback+retry, the retry policy being the default builder's or additionally configured with WithDelay(50ms) / WithBackoff(10ms, 500ms) / WithRandomDelay(1ms, 5ms); observed per attempt: instant, method, URL, header, body bytes, context value and deadline; returned status or error, readability of the returned body (the transport's body fails once its request context is done), responses opened/closed, goroutines still blocked one hour after the call returned (bubble leak oracle); (1b) attempts that overlap in time (a hedge started while earlier attempts are half-way through the body; a timed-out attempt whose transport drains the rest of the body in the middle of its retry) with stream / buffer / bytes.Reader / seekable bodies of 2 B-70 kB: bytes received by every attempt; (2) the body reader called directly for every body kind, size and already-consumed prefix, three attempts each; (3) the gRPC client and server interceptors with scripted status codes, arguments, reply and metadata. Non-trivial = at least two attempts / every body and gRPC case; distinct by inputs.", nil)
 }
 
 func errCodeHTTP(k string) int {
